@@ -663,7 +663,13 @@ Lemma jt_so_read X t0 o c : keeps (JT X t0) (so_read cfg Par o c).
 Proof.
   unfold so_read.
   eapply hoare_bind with (R := fun i s => JT X t0 s /\ i = get_inst s Par o); [apply hoare_gets; auto|].
-  intros i. destruct (nth c (i_vals i) None) as [v|]; [apply hoare_ret; tauto|].
+  intros i. destruct (negb (cacheVals cfg)).
+  { (* no cached values: a query, nothing else *)
+    destruct (i_obsolete i); [apply hoare_raise; tauto|].
+    eapply hoare_bind with (R := fun _ s => JT X t0 s).
+    - intros s [Hjt _]. unfold stmt_read. cbn. exact Hjt.
+    - intros t. destruct (tbl_lookup t (i_id i)); [apply hoare_ret; auto|apply hoare_raise; auto]. }
+  destruct (nth c (i_vals i) None) as [v|]; [apply hoare_ret; tauto|].
   eapply hoare_bind with (R := fun _ s => JT X t0 s /\ (get_inst s Par o = i_with_expired i false /\ inst_ok i)).
   { intros s [Hjt ->]. pose proof (jt_unflag X t0 o s Hjt) as H. pose proof (unflag_get s o) as G.
     assert (Hok : inst_ok (get_inst s Par o)) by (destruct Hjt as [(_ & He & _) _]; apply He).
@@ -892,7 +898,7 @@ Proof. destruct s as [[] [] ? ? ? ? ? ?]. reflexivity. Qed.
 Lemma jx_so_set s o c v :
   JX [] s ->
   (if lazy cfg then (c < length (i_pending (get_inst s Par o)))%nat
-   else others_blank s o /\
+   else cacheVals cfg = true /\ others_blank s o /\
         exists r, tbl_lookup (committed s) (i_id (get_inst s Par o)) = Some r /\ (c < length r)%nat) ->
   JX [] (snd (so_set cfg Par o c v s)).
 Proof.
@@ -912,7 +918,7 @@ Proof.
         unfold f. cbn [i_vals i_pending i_with_pending set_val i_with_vals]. apply pend_cached_set. apply (Hexp o).
       - intros Ha Hob. apply (shows_le (committed s) (get_inst s Par o) (f (get_inst s Par o)) eq_refl Hle). apply Hpf; [exact Ha|exact Hob]. }
     specialize (H Hpre). destruct (upd_inst Par o f s) as [[u|e] s']; exact H. }
-  destruct Hg as (Hob & r & Hl & Hc).
+  destruct Hg as (Hcv & Hob & r & Hl & Hc). rewrite Hcv. cbn [negb]. rewrite orb_false_r.
   unfold db_update, stmt_write. cbv beta iota.
   destruct (pending s) eqn:Ep; [exact J|].
   match goal with |- context [if ?b then _ else _] => destruct b end; [exact J|]. cbn [fst snd].
@@ -1237,10 +1243,10 @@ Proof.
         assert (Es : snd (so_set cfg Par x c v s) = with_log s (SUpdate Par (i_id (get_inst s Par x)) c :: log s)).
         { unfold so_set, bind, gets, db_update, stmt_write. cbv beta iota. rewrite El, Ep. reflexivity. }
         destruct (so_set cfg Par x c v s) as [[u|e] s'] eqn:Eq; cbn [snd] in *; subst s'; exact J.
-      * apply andb_true_iff in Hg. destruct Hg as [Hg1 Hg2].
+      * apply andb_true_iff in Hg. destruct Hg as [Hg1 Hg2]. apply andb_true_iff in Hg1. destruct Hg1 as [Hg0 Hg1].
         destruct (tbl_lookup (committed s) (i_id (get_inst s Par x))) as [r|] eqn:El2; [|discriminate].
         apply Nat.ltb_lt in Hg2.
-        specialize (H (conj (others_blankb_ok s x Hg1) (ex_intro _ r (conj eq_refl Hg2)))).
+        specialize (H (conj Hg0 (conj (others_blankb_ok s x Hg1) (ex_intro _ r (conj eq_refl Hg2))))).
         destruct (so_set cfg Par x c v s) as [[u|e] s']; cbn; exact H.
   - (* destroySelf *) unfold handle, bind, gets. cbv beta iota. destruct (nth h (slots s) None) as [[sd x]|] eqn:E; [|discriminate].
     inversion Hs; subst sd. unfold ret at 1. cbv beta iota. cbn [fst snd].
